@@ -27,6 +27,10 @@ pub enum Op {
 	Post { slot: usize },
 	Mine,
 	Refresh,
+	/// (directed histories only) a send whose source is the third account, named while the default account is active
+	InitNamed { slot: usize },
+	/// (directed histories only) cancel of that send: the third account is made active for the call
+	CancelNamed { slot: usize },
 }
 
 #[derive(Clone, Debug, Serialize, Deserialize, Default)]
@@ -119,6 +123,13 @@ impl Model for M {
 				}
 				a.issue_invoice(IssueInvoiceTxArgs { amount: G, ..Default::default() }).unwrap();
 			}
+			// a third, funded account for sends that name their source account
+			a.create_account("acct2").unwrap();
+			a.set_account("acct2").unwrap();
+			w.mine_n("A", 2);
+			w.mine_n("M", 3);
+			a.refresh().unwrap();
+			a.set_account("acct1").unwrap();
 			let bg = a.init_send(default_args(20 * G)).unwrap();
 			a.lock(&bg).unwrap();
 			a.set_account("default").unwrap();
@@ -177,6 +188,32 @@ impl Model for M {
 							s1: Some(slate_to_json(&s1)),
 							..Default::default()
 						});
+						out.label = "ok".into();
+					}
+					Err(e) => out.label = err_label(&e),
+				}
+			}
+			Op::InitNamed { slot } => {
+				let mut args = default_args(AMOUNT);
+				args.src_acct_name = Some("acct2".to_owned());
+				match w.w("A").init_send(args) {
+					Ok(s1) => {
+						sl[*slot] = Some(Slot { kind: "send".into(), id: s1.id.to_string(), s1: Some(slate_to_json(&s1)), ..Default::default() });
+						out.label = "ok".into();
+					}
+					Err(e) => out.label = err_label(&e),
+				}
+			}
+			Op::CancelNamed { slot } => {
+				let s = sl[*slot].as_mut().unwrap();
+				let id = Uuid::parse_str(&s.id).unwrap();
+				let a = w.w("A");
+				a.set_account("acct2").unwrap();
+				let r = a.cancel(None, Some(id));
+				a.set_account("default").unwrap();
+				match r {
+					Ok(()) => {
+						s.cancelled = true;
 						out.label = "ok".into();
 					}
 					Err(e) => out.label = err_label(&e),
@@ -462,6 +499,8 @@ fn op_kind(op: &Op) -> &'static str {
 		Op::Post { .. } => "post",
 		Op::Mine => "mine",
 		Op::Refresh => "refresh",
+		Op::InitNamed { .. } => "init-named",
+		Op::CancelNamed { .. } => "cancel-named",
 	}
 }
 
@@ -515,6 +554,12 @@ pub fn run(_args: &[String]) -> i32 {
 				}
 			}
 		}
+		// a send from a named (non-active) account: reserved, cancelled, then every step repeated
+		for again in [Op::Lock { slot: 0 }, Op::Receive { slot: 0 }] {
+			paths.push(vec![Op::InitNamed { slot: 0 }, Op::Lock { slot: 0 }, Op::CancelNamed { slot: 0 }, again.clone()]);
+			paths.push(vec![Op::InitNamed { slot: 0 }, Op::Receive { slot: 0 }, Op::Lock { slot: 0 }, Op::CancelNamed { slot: 0 }, again.clone()]);
+		}
+		paths.push(vec![Op::InitNamed { slot: 0 }, Op::Lock { slot: 0 }, Op::Lock { slot: 0 }]);
 		let root = scratch_root();
 		let res = par_map(&paths, workers(), |i, p| {
 			// every prefix end is checked by run_path only at the last step: run the two tails separately
